@@ -462,6 +462,15 @@ void vfps::ProgramOptions::save(std::string fname)
                 ofs << it->first << '='
                     << _vm[it->first].as<bool>()
                     << std::endl;
+            } else if (it->second.value().type()
+                       == typeid(std::vector<integral_t>)) {
+                // one line per entry (bunch currents)
+                for (auto val : _vm[it->first].as<std::vector<integral_t>>()) {
+                    ofs << it->first << '='
+                        << std::setprecision(
+                               std::numeric_limits<integral_t>::max_digits10)
+                        << val << std::endl;
+                }
             } else {
                 std::string val;
                 try {
